@@ -104,6 +104,7 @@ def runWith [Inhabited σ] (m : Machine σ) (s0 : σ) (scfg : WinSpec.Cfg) (c : 
   let mut evs : List WinSpec.Ev := []
   let mut tags : List String := []
   let mut flushed := false
+  let mut ptTicks : Nat := 0
   for (op, implObs) in c.ops do
     match op with
     | "add" :: id :: ts :: _ =>
@@ -144,13 +145,24 @@ def runWith [Inhabited σ] (m : Machine σ) (s0 : σ) (scfg : WinSpec.Cfg) (c : 
     | ["tick"] =>
       s := m.tick s now
       obs := obs ++ [[]]
-    | ["pttick"] =>
+    | "pttick" :: gs =>
+      let gaps := gs.filterMap parseGap
       let (s', es) := m.ptTick s
       s := s'
+      -- Adds issued during the hand-off of the fired window (inside the callback)
+      if !es.isEmpty then
+        for g in gaps do
+          if g.k == 0 then
+            match g.ts with
+            | some t => s := m.ptAdd s { id := g.id, ts := t }
+            | none => pure ()
       obs := obs ++ [es.map emLine]
-      evs := evs ++ evsOfObs implObs []
+      evs := evs ++ evsOfObs implObs gaps
+      ptTicks := ptTicks + 1
     | _ => obs := obs ++ [[["bad-op"]]]
-  let spec := if mode == "pt" then "ok" else
+  let spec := if mode == "pt" then
+      (match WinSpec.holdsPT scfg evs ptTicks with | none => "ok" | some e => "fail:" ++ e)
+    else
     match WinSpec.holds scfg evs flushed with
     | none => "ok"
     | some e => "fail:" ++ e
